@@ -54,6 +54,12 @@ def child_main(db, logpath, crash_at, scenario, seed, slow=False):
             point("exec-after")
             return r
 
+        def __iter__(self):             # rows may be streamed from the cursor (special methods are not found through __getattr__)
+            return iter(self._c)
+
+        def __next__(self):
+            return next(self._c)
+
         def __getattr__(self, name):
             return getattr(self._c, name)
 
